@@ -1,5 +1,6 @@
 (** C08 — creations that fail: before the reservation (base step [G_fail]: nothing is consumed) and after
-    it (extension step [X_fail_late]: the slot leaks for good). *)
+    it (extension step [X_fail_late]: the slot leaks for good; the invariant [InvL] of ProofsInv.v carries
+    the list of leaked slots, so the whole accounting stays exact with the leaked slots counted). *)
 From Coq Require Import Arith List Bool Lia Permutation.
 From KV Require Import Base.Outcome C08.Model C08.ProofsBase C08.ProofsInv C08.ProofsRun C08.ProofsProps.
 Import ListNotations.
